@@ -12,7 +12,7 @@ from ..selftest import Mutant
 
 ID = "C26"
 TECHNIQUE = "CFG dominance / guard / who-may-call rules on LockDir (ast) + Rust-lite early-return guard extraction"
-FLOOR = 18
+FLOOR = 25
 LD = "breezy/lockdir.py"
 RS = "src/lockdir.rs"
 EXPLANATION = """
